@@ -1,8 +1,8 @@
 CONSTANTS
-  MaxT = 3
+  MaxT = 4
   MaxP = 2
   Shards = 64
-  AlphaSel = {1, 2, 3, 4, 5, 6}
+  AlphaSel = {1}
 INIT EInit
 NEXT ENext
 INVARIANT Emit
